@@ -26,6 +26,12 @@ Histories  : every scenario is a call history that ends in a compared export(): 
              Design level: env = [mode, cached, weight version, snapshot version]; InvExportCurrent (export after k weight
              updates holds the weights of version k), InvFreshIsSummary whatever the autograd mode; expected-to-fail
              variants FwdImpl = "cache" (eval + no_grad forward skips the weight sampler) and ExpImpl = "memo".
+At every compared export() summary() is read FIRST (no forward pass in between) and must equal both the precisions of the
+             exported quantiser objects and the arg-max of the raw coefficients, for every module (input quantiser, MPSConv1d,
+             MPSConv2d, MPSLinear, MPSAdd) - clause "C02.summary export() number k"; pinned histories (always run, on a
+             conv+linear 2-D, a conv-only 2-D, a conv+linear 1-D and a conv-only 1-D network): every kind of coefficient write
+             (load_state_dict, copy_, .data, optimizer step) followed by summary / export without a forward pass, and
+             hard-Gumbel training mode right after a training forward pass.
 Two objects : history action fork: obj := deepcopy(obj), the original is perturbed (other coefficients, options, temperature,
              forward passes), the history continues on the copy; every clause is evaluated on the copy (reference state =
              state at the fork); loadT = load_state_dict of another temperature.  Sanity variant ForkImpl = "shared" fails.
@@ -81,7 +87,7 @@ def run(tier: str, seed: int, replay=None) -> int:
                     ("MPSLifeMC_export_thorough", 2500, 150, "exports"),
                     ("MPSLifeMC_fork_thorough", 1200, 100, "fork")]),
         "sanity": ["MPSLifeMC_nokf40", "MPSLifeMC_noreuse", "MPSLifeMC_cachefwd", "MPSLifeMC_memoexport", "MPSLifeMC_sharedfork"],
-        "n_random": 40 if q else 600, "random_sels": 2 if q else 3, "max_nodes": 9 if q else 12,
+        "n_random": 28 if q else 600, "random_sels": 2 if q else 3, "max_nodes": 9 if q else 12,
         "procs": 8, "tlc_workers": 8,
     }
     return mps_gen.run_check("C02", tier, seed, replay, plan)
